@@ -309,3 +309,132 @@ Proof.
     + rewrite dtag_200. rewrite (with_len_app 2 2 65536) by (try reflexivity; lia). now apply dec_ext_app.
     + rewrite dtag_201. rewrite (with_len_app 4 4 4294967296) by (try reflexivity; lia). now apply dec_ext_app.
 Qed.
+
+(* ---------------- unpackb ---------------- *)
+Lemma header_len_arr (n : N) : 1 <= length (if (n <? 16)%N then [(144 + n)%N] else enc_len None 220 221 n).
+Proof. unfold enc_len. repeat match goal with |- context [if ?c then _ else _] => destruct c end; simpl; lia. Qed.
+Lemma header_len_map (n : N) : 1 <= length (if (n <? 16)%N then [(128 + n)%N] else enc_len None 222 223 n).
+Proof. unfold enc_len. repeat match goal with |- context [if ?c then _ else _] => destruct c end; simpl; lia. Qed.
+
+Lemma depth_le_len : forall v, mv_depth v <= length (encode v).
+Proof.
+  induction v as [|b|z|b|s|b|l IH|l IH|c d] using mv_ind';
+    try (cbn [mv_depth]; apply encode_nonempty).
+  - cbn [mv_depth encode]. rewrite app_length.
+    assert (fold_right (fun x m => Nat.max (mv_depth x) m) 0 l <= length (concat (map encode l))); [|pose proof (header_len_arr (lenN l)); lia].
+    induction IH as [|x r Hx Hr IHr]; cbn [map concat fold_right length]; [lia|]. rewrite app_length. lia.
+  - cbn [mv_depth encode]. rewrite app_length.
+    assert (fold_right (fun kv m => Nat.max (Nat.max (mv_depth (fst kv)) (mv_depth (snd kv))) m) 0 l
+            <= length (concat (map (fun kv => encode (fst kv) ++ encode (snd kv)) l))); [|pose proof (header_len_map (lenN l)); lia].
+    induction IH as [|x r [Hk Hv] Hr IHr]; cbn [map concat fold_right length]; [lia|]. rewrite !app_length. lia.
+Qed.
+
+Theorem unpackb_encode v : mv_wfb v = true -> unpackb (encode v) = Some v.
+Proof.
+  intros H. unfold unpackb. pose proof (decode_encode v H (length (encode v)) [] (depth_le_len v)) as E.
+  rewrite app_nil_r in E. rewrite E. reflexivity.
+Qed.
+
+(* ---------------- flax: arrays, scalars and complex numbers in ext payloads ---------------- *)
+Lemma shape_of_map sh : shape_of (map (fun d => MInt (Z.of_N d)) sh) = Some sh.
+Proof.
+  induction sh as [|d r IH]; [reflexivity|]. cbn [map shape_of fold_right] in *. fold (shape_of (map (fun d => MInt (Z.of_N d)) r)).
+  rewrite IH. destruct (Z.leb_spec 0 (Z.of_N d)); [|lia]. now rewrite N2Z.id.
+Qed.
+
+Lemma int_wf_of_N d : (d <? two64)%N = true ->
+  ((-9223372036854775808 <=? Z.of_N d) && (Z.of_N d <? 18446744073709551616))%Z = true.
+Proof.
+  intros H. apply N.ltb_lt in H. unfold two64 in H. apply andb_true_iff; split; [apply Z.leb_le|apply Z.ltb_lt]; lia.
+Qed.
+
+Section RestoreProofs.
+  Variable isz_of : key -> N.
+
+  Lemma arr_payload_wf dt sh isz data : arr_fits isz_of dt sh isz data = true ->
+    mv_wfb (MArr [MArr (map (fun d => MInt (Z.of_N d)) sh); MStr dt; MBin data]) = true.
+  Proof.
+    unfold arr_fits. rewrite !andb_true_iff. intros [[[[[[[_ _] _] Hdims] Hsh] Hdt] Hdata] _].
+    cbn [mv_wfb forallb]. rewrite Hdt, Hdata. unfold lenN at 2. rewrite map_length. fold (lenN sh). rewrite Hsh.
+    assert (E : forallb mv_wfb (map (fun d => MInt (Z.of_N d)) sh) = true).
+    { rewrite forallb_forall in *. intros v Hv. apply in_map_iff in Hv as (d & <- & Hd). cbn [mv_wfb]. apply int_wf_of_N. now apply Hdims. }
+    rewrite E. reflexivity.
+  Qed.
+
+  Lemma ndarray_roundtrip dt sh isz data : arr_fits isz_of dt sh isz data = true ->
+    ndarray_from_bytes isz_of (ndarray_bytes dt sh data) = Some (dt, sh, data) /\ isz = isz_of dt.
+  Proof.
+    intros H. pose proof (arr_payload_wf _ _ _ _ H) as W. unfold arr_fits in H. rewrite !andb_true_iff in H.
+    destruct H as [[[[[[[Hi H1] Hlen] _] _] _] _] _]. apply N.eqb_eq in Hi. subst isz.
+    unfold ndarray_from_bytes, ndarray_bytes. rewrite (unpackb_encode _ W), shape_of_map, H1, Hlen. now split.
+  Qed.
+
+  Lemma complex_len re im : length (encode (MArr [MF64 re; MF64 im])) = 19.
+  Proof. cbn [encode map concat lenN length N.of_nat]. simpl. reflexivity. Qed.
+
+  Lemma leaf_roundtrip l : leaf_fits isz_of l = true -> mv_sd isz_of (leaf_mv l) = Some (SLeaf l).
+  Proof.
+    intros H. destruct l as [dt sh isz data|dt isz data|z|b|b| |s|b|re im]; try reflexivity; cbn [leaf_mv leaf_fits mv_sd] in *.
+    - destruct (ndarray_roundtrip _ _ _ _ H) as [E ->]. unfold ext_unpack. cbn [N.eqb Pos.eqb]. rewrite E. reflexivity.
+    - destruct (ndarray_roundtrip _ _ _ _ H) as [E ->]. unfold ext_unpack. cbn [N.eqb Pos.eqb]. rewrite E. reflexivity.
+    - unfold ext_unpack. cbn [N.eqb Pos.eqb]. rewrite unpackb_encode; [reflexivity|].
+      apply andb_true_iff in H as [H1 H2]. cbn [mv_wfb forallb]. now rewrite H1, H2.
+  Qed.
+
+  Lemma leaf_wf l : leaf_fits isz_of l = true -> mv_wfb (leaf_mv l) = true.
+  Proof.
+    intros H. destruct l as [dt sh isz data|dt isz data|z|b|b| |s|b|re im]; try exact H; try reflexivity; cbn [leaf_mv leaf_fits mv_wfb] in *.
+    - unfold arr_fits in H. rewrite !andb_true_iff in H. apply H.
+    - unfold arr_fits in H. rewrite !andb_true_iff in H. apply H.
+  Qed.
+
+  Theorem mv_sd_sd_mv : forall s, sd_fits isz_of s = true -> mv_sd isz_of (sd_mv s) = Some s.
+  Proof.
+    induction s as [l|kids IH] using sd_ind'; intros H.
+    - now apply leaf_roundtrip.
+    - cbn [sd_mv mv_sd sd_fits] in *. apply andb_true_iff in H as [_ H].
+      assert (G : (fix go (l : list (mv * mv)) : option (list (key * sd)) :=
+                     match l with
+                     | [] => Some []
+                     | (MStr k, v) :: r => match mv_sd isz_of v, go r with Some s, Some r' => Some ((k, s) :: r') | _, _ => None end
+                     | _ => None
+                     end) (map (fun kv => (MStr (fst kv), sd_mv (snd kv))) kids) = Some kids).
+      { induction kids as [|[k v] r IHr]; [reflexivity|]. inversion IH as [|? ? Hv Hr]; subst.
+        cbn [forallb fst snd] in H. apply andb_true_iff in H as [Hkv Hrest]. apply andb_true_iff in Hkv as [_ Hfv].
+        cbn [map fst snd]. simpl in Hv. rewrite (Hv Hfv), (IHr Hr Hrest). reflexivity. }
+      rewrite G. reflexivity.
+  Qed.
+
+  Theorem sd_fits_wf : forall s, sd_fits isz_of s = true -> mv_wfb (sd_mv s) = true.
+  Proof.
+    induction s as [l|kids IH] using sd_ind'; intros H.
+    - now apply leaf_wf.
+    - cbn [sd_mv mv_wfb sd_fits] in *. apply andb_true_iff in H as [Hn H]. apply andb_true_iff; split; [unfold lenN in *; rewrite map_length; exact Hn|].
+      rewrite forallb_forall. rewrite forallb_forall in H. intros kv Hkv. apply in_map_iff in Hkv as ([k v] & <- & Hin).
+      rewrite Forall_forall in IH. specialize (H _ Hin). specialize (IH _ Hin). cbn [fst snd mv_wfb] in *.
+      apply andb_true_iff in H as [Hk Hv]. now rewrite Hk, (IH Hv).
+  Qed.
+
+  (* msgpack_restore inverts msgpack_serialize on every state dict that fits the format's limits, whatever the chunk threshold *)
+  Theorem restore_serialize th s : clean s -> sd_fits isz_of (chunk_leaves th s) = true ->
+    msgpack_restore isz_of (encode (sd_mv (chunk_leaves th s))) = Some s.
+  Proof.
+    intros Hc Hf. unfold msgpack_restore. rewrite unpackb_encode by (now apply sd_fits_wf).
+    rewrite mv_sd_sd_mv by exact Hf. now apply unchunk_chunk_leaves.
+  Qed.
+
+  Theorem from_bytes_to_bytes th t : pwf t = true -> clean (to_sd t) -> sd_fits isz_of (chunk_leaves th (to_sd t)) = true ->
+    from_bytes isz_of t (to_bytes th t) = Ok t.
+  Proof.
+    intros Hp Hc Hf. unfold from_bytes, to_bytes. rewrite restore_serialize by assumption.
+    unfold from_state_dict. now apply from_to_sd.
+  Qed.
+
+  (* a strict prefix of an encoding is never accepted: decode consumes exactly the encoding *)
+  Theorem decode_consumes v rest : mv_wfb v = true -> unpackb (encode v ++ rest) = (match rest with [] => Some v | _ => None end).
+  Proof.
+    intros H. unfold unpackb.
+    assert (D : mv_depth v <= length (encode v ++ rest)) by (rewrite app_length; pose proof (depth_le_len v); lia).
+    rewrite (decode_encode v H _ rest D). reflexivity.
+  Qed.
+End RestoreProofs.
